@@ -133,6 +133,62 @@ func c02R2(c *Ctx, rule string) {
 	if len(ts) < 2 {
 		c.Bad(rule, "fsmMutateCh:sent-types", "-", "[]*commitTuple and *restoreFuture are sent", fmt.Sprintf("found %v", ts))
 	}
+	// the consumer handles each received item exactly once, in receive order:
+	// per loop iteration one receive, dispatched to exactly one closure with
+	// the received value; batches are walked front to back
+	if fn := c.P.Fn("(*Raft).runFSM"); fn != nil {
+		sel := loopSelect(c, fn)
+		if sel == nil {
+			c.Bad(rule, "runFSM:select", c.P.Pos(fn.Pos()), "the FSM goroutine's select", "none")
+		} else {
+			for k, st := range sel.States {
+				if st.Dir != types.RecvOnly {
+					continue
+				}
+				chd := c.P.D(st.Chan)
+				if chd != "recv.fsmMutateCh" && chd != "recv.fsmSnapshotCh" {
+					continue
+				}
+				arm := engine.SelectArmEntry(sel, k)
+				if arm == nil {
+					continue
+				}
+				r := c.Run(&engine.Automaton{Fn: fn, StartBlock: arm, StopAt: func(in ssa.Instruction) bool { return in == ssa.Instruction(sel) }, Tracks: []engine.Track{
+					engine.Event("batch", func(in ssa.Instruction) bool {
+						cc := engine.CallCommonOf(in)
+						return cc != nil && c.P.CalleeName(cc) == "(*Raft).runFSM$applyBatch" && strings.HasPrefix(c.P.Arg(in, 0), "<-"+chd+".(")
+					}),
+					engine.Event("restore", func(in ssa.Instruction) bool {
+						cc := engine.CallCommonOf(in)
+						return cc != nil && c.P.CalleeName(cc) == "(*Raft).runFSM$restore" && strings.HasPrefix(c.P.Arg(in, 0), "<-"+chd+".(")
+					}),
+					engine.Event("snapshot", func(in ssa.Instruction) bool {
+						cc := engine.CallCommonOf(in)
+						return cc != nil && c.P.CalleeName(cc) == "(*Raft).runFSM$snapshot" && c.P.Arg(in, 0) == "<-"+chd
+					}),
+				}})
+				c.RequireAt(r, rule, "runFSM:"+strings.TrimPrefix(chd, "recv.")+"-handled-once", sel, "each received item is handed to exactly one of applyBatch / restore / snapshot before the next receive (anything else panics)", func(v engine.View) bool {
+					n := 0
+					for _, e := range []string{"batch", "restore", "snapshot"} {
+						if v.Seen(e) {
+							n++
+						}
+					}
+					return n == 1
+				})
+			}
+		}
+	}
+	if ab := c.P.Fn("(*Raft).runFSM$applyBatch"); ab != nil {
+		rangeBodyAlways(c, rule, ab, "runFSM/applyBatch:every-tuple-applied-in-order", "cp1", func(in ssa.Instruction) bool {
+			cc := engine.CallCommonOf(in)
+			if cc == nil {
+				return false
+			}
+			n := c.P.CalleeName(cc)
+			return (n == "(*Raft).runFSM$applySingle" && c.P.Arg(in, 0) == "val(range cp1)") || (n == "(*Raft).runFSM$applyBatch$shouldSend" && c.P.Arg(in, 0) == "val(range cp1).log")
+		}, "the batch is walked front to back and every tuple is applied (non-batching) or classified for ApplyBatch (batching)")
+	}
 }
 
 func c02R3(c *Ctx, rule string) {
